@@ -578,6 +578,50 @@ class FnLower:
                         else: self.construct_into('&(%s)->%s' % (target, nm), a, ti)
                     return
                 if len(args) == 1: return self.construct_into(target, args[0], t)
+            if t[0] == 'fnobj':
+                args = [a for a in args if a.get('kind') != 'CXXDefaultArgExpr']
+                if not args: self.emit('(%s)->tag = 0; (%s)->obj = 0;' % (target, target)); return
+                a0 = self.strip(args[0]); at = L.deref_t(a0['type'])
+                if at[0] == 'fnobj':
+                    if self.is_glvalue(args[0]) and not e.get('elidable'):
+                        src = self.addr(args[0])
+                        self.emit('*(%s) = *(%s);' % (target, src))
+                        if params_of(ct)[0].strip().endswith('&&'): self.emit('(%s)->tag = 0; /* moved-from std::function is empty */' % src)
+                        return
+                    return self.construct_into(target, args[0], t)
+                if at[0] == 'rec':
+                    ops = [m for m in self.all_call_operators(at[1]) if self.idx.defn.get(m['id']) is not None]
+                    if len(ops) != 1: self.unsupported('std::function from a functor without a unique call operator')
+                    cl = self.rv(args[0])
+                    tag = L.fn_erase(t[1], at[1], ops[0])
+                    cs = L.ctype_of(at)
+                    self.emit('(%s)->tag = %d; (%s)->obj = VP_NEW(%s); *(%s *)(%s)->obj = %s; /* std::function holding a copy of the closure */' % (target, tag, target, cs, cs, target, cl))
+                    return
+                self.unsupported('std::function constructed from %s' % (at,))
+            if t[0] == 'vec':
+                args = [a for a in args if a.get('kind') != 'CXXDefaultArgExpr']
+                if not args: self.emit('(%s)->n = 0;' % target); return
+                a0 = args[0]
+                while a0.get('kind') in ('ExprWithCleanups', 'ImplicitCastExpr', 'ParenExpr'): a0 = a0['inner'][0]
+                if a0.get('kind') == 'CXXStdInitializerListExpr':
+                    il = a0
+                    while il.get('kind') != 'InitListExpr':
+                        if not il.get('inner'): self.unsupported('initializer_list without an init list')
+                        il = il['inner'][0]
+                    items = il.get('inner', [])
+                    cap = int(L.cfg.get('vector_cap', 4))
+                    if len(items) > cap: self.unsupported('vector initialiser longer than the model capacity %d' % cap)
+                    et = L.tparse(t[1])
+                    while et[0] == 'alias': et = L.tparse(et[1])
+                    for i, it in enumerate(items):
+                        self.init_slot('(%s)->a[%d]' % (target, i), et, it)
+                    self.emit('(%s)->n = %d;' % (target, len(items)))
+                    return
+                at = L.deref_t(self.strip(args[0])['type'])
+                if at[0] == 'vec':
+                    if self.is_glvalue(args[0]) and not e.get('elidable'): self.emit('*(%s) = *(%s);' % (target, self.addr(args[0]))); return
+                    return self.construct_into(target, args[0], t)
+                self.unsupported('std::vector constructor %s' % ct)
             if t[0] == 'model':
                 if (e.get('elidable') or self.is_copy_or_move_ctor(ct, tystr)) and len(args) == 1:
                     a0 = self.strip(args[0])
@@ -637,7 +681,7 @@ class FnLower:
     def init_slot(self, lval, ft, it):
         L = self.L
         if ft[0] == 'ref': self.emit('%s = %s;' % (lval, self.addr(it)))
-        elif ft[0] in ('rec', 'tuple', 'stdarray', 'pair', 'refw', 'uptr') or (ft[0] == 'model' and ft[1].startswith('struct')):
+        elif ft[0] in ('rec', 'tuple', 'stdarray', 'pair', 'refw', 'uptr', 'fnobj', 'vec') or (ft[0] == 'model' and ft[1].startswith('struct')):
             self.construct_into('&' + lval, it, ft)
         else: self.emit('%s = %s;' % (lval, self.rv(it)))
 
@@ -817,6 +861,47 @@ class FnLower:
             if name == 'size': return '%dUL' % n, False
             if name == 'operator[]': return '(&(%s)->e[%s])' % (base, self.rv(args[0])), True
             self.unsupported('std::array::%s' % name)
+        if ot[0] == 'vec':
+            base = self.addr(obj) if not arrow else self.rv(obj)
+            if not SIMPLE_RE.match(base): x = self.tmp(); self.emit('%s * %s = %s;' % (L.ctype_of(ot), x, base)); base = x
+            if name in ('begin', 'cbegin', 'data'): return '(&(%s)->a[0])' % base, False
+            if name in ('end', 'cend'): return '(&(%s)->a[(%s)->n])' % (base, base), False
+            if name == 'size': return '((%s)->n)' % base, False
+            if name == 'empty': return '((%s)->n == 0)' % base, False
+            if name == 'back':
+                self.emit('VP_SAFETY((%s)->n > 0, "std::vector::back() on an empty vector");' % base)
+                return '(&(%s)->a[(%s)->n - 1])' % (base, base), True
+            if name == 'pop_back':
+                self.emit('VP_SAFETY((%s)->n > 0, "std::vector::pop_back() on an empty vector");' % base)
+                self.emit('(%s)->n = (%s)->n - 1;' % (base, base)); return '', False
+            if name == 'push_back' and len(args) == 1:
+                et = L.tparse(ot[1])
+                while et[0] == 'alias': et = L.tparse(et[1])
+                self.emit('VP_MODEL_BOUND((%s)->n < VP_VEC_CAP, "std::vector model capacity");' % base)
+                self.init_slot('(%s)->a[(%s)->n]' % (base, base), et, args[0])
+                self.emit('(%s)->n = (%s)->n + 1;' % (base, base)); return '', False
+            if name == 'erase' and len(args) in (1, 2):
+                et = L.tparse(ot[1])
+                while et[0] == 'alias': et = L.tparse(et[1])
+                if et[0] not in ('fnobj', 'builtin', 'ptr'): self.unsupported('std::vector::erase over elements of type %s' % (et,))
+                ect = L.ctype_of(et)
+                ops = self.operands([('rv', a) for a in args])
+                f = self.tmp('_ef'); l = self.tmp('_el')
+                self.emit('%s * %s = %s; %s * %s = %s;' % (ect, f, ops[0], ect, l, ops[1] if len(args) == 2 else '%s + 1' % ops[0]))
+                self.emit('VP_SAFETY(&(%s)->a[0] <= %s && %s <= %s && %s <= &(%s)->a[(%s)->n], "std::vector::erase() with an invalid iterator range");' % (base, f, f, l, l, base, base))
+                self.emit('{ %s * _s = %s; %s * _d = %s; while (_s != &(%s)->a[(%s)->n]) { *_d = *_s; ++_d; ++_s; } (%s)->n = (%s)->n - (unsigned long)(%s - %s); } /* std::vector::erase: the tail moves down */' % (ect, l, ect, f, base, base, base, base, l, f))
+                self.loops_closed += 1
+                return f, False
+            self.unsupported('std::vector::%s' % name)
+        if ot[0] == 'fnobj':
+            this = self.rv(obj) if arrow else self.addr(obj)
+            if name == 'operator()':
+                ps = params_of(ot[1])
+                items = [('addr' if L.is_ref(p) else 'rv', a) for p, a in zip(ps, args)]
+                ca = self.operands(items)
+                return self.finish_call('%s(%s)' % (L.fn_dispatcher(ot[1]), ', '.join([this] + ca)), ret_t, returns_ref, True, want_value)
+            if name == 'operator bool': return '((%s)->tag != 0)' % this, False
+            self.unsupported('std::function::%s' % name)
         if (ot[0] == 'builtin' or (ot[0] == 'model' and not ot[1].startswith('struct'))) and (name.startswith('operator ') or name in ('load',)):
             return (self.lv(obj) if not arrow else '(*%s)' % self.rv(obj)), False   # atomic<T> -> T
         if ot[0] == 'model' or ot[0] == 'initlist' or ot[0] == 'rec':
@@ -878,6 +963,44 @@ class FnLower:
             if at[0] == 'array':
                 base = self.addr(args[0])
                 return '(&(%s)->a[%d])' % (base, 0 if 'begin' in name else at[2]), False
+            if at[0] == 'rec':
+                want = name.lstrip('c') if name.startswith('c') else name
+                ms = [m for m in self.idx.methods(at[1]) if m.get('name') == want and not [p for p in m.get('inner', []) if p.get('kind') == 'ParmVarDecl'] and self.idx.defn.get(m['id']) is not None]
+                cm = [m for m in ms if 'const' in m['type']['qualType'].rsplit(')', 1)[-1]]
+                glv_const = 'const' in qt(args[0]['type']).split('<')[0] or name.startswith('c')
+                pick = (cm if glv_const and cm else [m for m in ms if m not in cm] or cm)
+                if len(pick) == 1:
+                    this = self.addr(args[0])
+                    return self.finish_call('%s((struct %s *)%s)' % (L.need_fn(pick[0]['id']), L.need_rec(L.rec_of_method(pick[0])), this), ret_t, returns_ref, L.fn_may_throw(pick[0]), want_value)
+        if name in ('equal', 'mismatch') and len(args) == 5:
+            ts = [L.deref_t(a['type']) for a in args]
+            if all(t[0] == 'ptr' for t in ts[:4]) and ts[4][0] == 'rec':
+                ops = [m for m in self.all_call_operators(ts[4][1]) if self.idx.defn.get(m['id']) is not None]
+                if len(ops) != 1: self.unsupported('std::%s functor without a unique instantiated operator()' % name)
+                a1, b1, a2, b2 = self.operands([('rv', a) for a in args[:4]])
+                cl = self.rv(args[4])
+                if not SIMPLE_RE.match(cl): x = self.tmp(); self.emit('%s %s = %s;' % (L.ctype_of(ts[4]), x, cl)); cl = x
+                i1 = self.tmp('_it'); i2 = self.tmp('_it'); c1 = L.ctype_of(ts[0]); c2 = L.ctype_of(ts[2])
+                self.emit('%s %s = %s; %s %s_end = %s; %s %s = %s; %s %s_end = %s;' % (c1, i1, a1, c1, i1, b1, c2, i2, a2, c2, i2, b2))
+                fn = L.need_fn(ops[0]['id'])
+                prms = [p for p in ops[0].get('inner', []) if p.get('kind') == 'ParmVarDecl']
+                ax = [it if L.is_ref(p['type']) else '(%s)(*%s)' % (L.ctype(p['type']), it) for p, it in zip(prms, (i1, i2))]
+                if name == 'equal':
+                    res = self.tmp('_alg')
+                    self.emit('_Bool %s = (%s_end - %s) == (%s_end - %s); /* std::equal, random access: the lengths are compared first */' % (res, i1, i1, i2, i2))
+                    self.emit('while (%s && %s != %s_end) {' % (res, i1, i1))
+                else:
+                    self.emit('while (%s != %s_end && %s != %s_end) { /* std::mismatch: first position where the predicate fails or a range ends */' % (i1, i1, i2, i2))
+                self.emit('  _Bool _p = %s(&%s, %s);' % (fn, cl, ', '.join(ax)))
+                if L.fn_may_throw(ops[0]):
+                    self.ind += 1; self.check(); self.ind -= 1
+                if name == 'equal': self.emit('  if (!_p) { %s = 0; break; }' % res)
+                else: self.emit('  if (!_p) break;')
+                self.emit('  ++%s; ++%s;' % (i1, i2)); self.emit('}')
+                self.loops_closed += 1
+                if name == 'equal': return res, False
+                pr = self.tmp(); self.emit('%s %s; %s.first = %s; %s.second = %s;' % (L.ctype_of(ret_t), pr, pr, i1, pr, i2))
+                return pr, False
         if name in ('all_of', 'any_of', 'none_of') and len(args) == 3:
             t0 = L.deref_t(args[0]['type']); t2 = L.deref_t(args[2]['type'])
             if t0[0] == 'ptr' and t2[0] == 'rec':
@@ -901,6 +1024,71 @@ class FnLower:
                 self.emit('  ++%s;' % it); self.emit('}')
                 self.loops_closed += 1
                 return res, False
+        if name == 'find_if' and len(args) == 3:
+            t0 = L.deref_t(args[0]['type']); t2 = L.deref_t(args[2]['type'])
+            if t0[0] == 'ptr' and t2[0] == 'rec':
+                ops = [m for m in self.all_call_operators(t2[1]) if self.idx.defn.get(m['id']) is not None]
+                if len(ops) != 1: self.unsupported('std::find_if functor without a unique instantiated operator()')
+                a, b = self.operands([('rv', args[0]), ('rv', args[1])])
+                cl = self.rv(args[2])
+                if not SIMPLE_RE.match(cl): x = self.tmp(); self.emit('%s %s = %s;' % (L.ctype_of(t2), x, cl)); cl = x
+                it = self.tmp('_it'); ct = L.ctype_of(t0)
+                self.emit('%s %s = %s; %s %s_end = %s;' % (ct, it, a, ct, it, b))
+                fn = L.need_fn(ops[0]['id'])
+                prm = [p for p in ops[0].get('inner', []) if p.get('kind') == 'ParmVarDecl'][0]
+                argx = it if L.is_ref(prm['type']) else '(%s)(*%s)' % (L.ctype(prm['type']), it)
+                self.emit('while (%s != %s_end) { /* std::find_if: first element the predicate accepts, else last */' % (it, it))
+                self.emit('  _Bool _p = %s(&%s, %s);' % (fn, cl, argx))
+                if L.fn_may_throw(ops[0]):
+                    self.ind += 1; self.check(); self.ind -= 1
+                self.emit('  if (_p) break;')
+                self.emit('  ++%s;' % it); self.emit('}')
+                self.loops_closed += 1
+                return it, False
+        if name == 'remove_if' and len(args) == 3:
+            t0 = L.deref_t(args[0]['type']); t2 = L.deref_t(args[2]['type'])
+            if t0[0] == 'ptr' and t2[0] == 'rec':
+                et = L.tparse(t0[1])
+                while et[0] == 'alias': et = L.tparse(et[1])
+                if et[0] not in ('fnobj', 'builtin', 'ptr'): self.unsupported('std::remove_if over elements of type %s' % (et,))
+                ops = [m for m in self.all_call_operators(t2[1]) if self.idx.defn.get(m['id']) is not None]
+                if len(ops) != 1: self.unsupported('std::remove_if functor without a unique instantiated operator()')
+                a, b = self.operands([('rv', args[0]), ('rv', args[1])])
+                cl = self.rv(args[2])
+                if not SIMPLE_RE.match(cl): x = self.tmp(); self.emit('%s %s = %s;' % (L.ctype_of(t2), x, cl)); cl = x
+                it = self.tmp('_it'); ct = L.ctype_of(t0)
+                self.emit('%s %s = %s; %s %s_end = %s; %s %s_out = %s;' % (ct, it, a, ct, it, b, ct, it, a))
+                fn = L.need_fn(ops[0]['id'])
+                prm = [p for p in ops[0].get('inner', []) if p.get('kind') == 'ParmVarDecl'][0]
+                argx = it if L.is_ref(prm['type']) else '(%s)(*%s)' % (L.ctype(prm['type']), it)
+                self.emit('while (%s != %s_end) { /* std::remove_if: elements the predicate rejects are moved to the front, in order */' % (it, it))
+                self.emit('  _Bool _p = %s(&%s, %s);' % (fn, cl, argx))
+                if L.fn_may_throw(ops[0]):
+                    self.ind += 1; self.check(); self.ind -= 1
+                self.emit('  if (!_p) { if (%s_out != %s) *%s_out = *%s; ++%s_out; }' % (it, it, it, it, it))
+                self.emit('  ++%s;' % it); self.emit('}')
+                self.loops_closed += 1
+                return it + '_out', False
+        if name in ('operator!=', 'operator==') and len(args) == 2 and L.deref_t(args[0]['type'])[0] == 'ptr' and L.deref_t(args[1]['type'])[0] == 'ptr':
+            a, b = self.operands([('rv', args[0]), ('rv', args[1])])
+            return '(%s %s %s)' % (a, name[8:], b), False
+        if name == 'operator*' and len(args) == 1 and L.deref_t(args[0]['type'])[0] == 'ptr':
+            return self.rv(args[0]), True
+        if name == 'operator=' and len(args) == 2 and L.deref_t(args[0]['type'])[0] == 'fnobj':
+            rt0 = L.deref_t(self.strip(args[1])['type'])
+            if rt0[0] != 'fnobj': self.unsupported('std::function assigned from %s' % (rt0,))
+            lhs, rhs = self.operands([('addr', args[0]), ('addr', args[1])])
+            moved = params_of((decl or rd)['type']['qualType'])[0].strip().endswith('&&')
+            tv = self.tmp(); self.emit('struct vp_fnobj %s = *(%s);' % (tv, rhs))
+            if moved: self.emit('(%s)->tag = 0; /* function(std::move(x)).swap(*this): the source is left empty, self-move keeps the target */' % rhs)
+            self.emit('*(%s) = %s;' % (lhs, tv))
+            return lhs, True
+        if name == 'operator()' and len(args) >= 1 and L.deref_t(args[0]['type'])[0] == 'fnobj':
+            ft = L.deref_t(args[0]['type'])
+            ps = params_of(ft[1])
+            items = [('addr', args[0])] + [('addr' if L.is_ref(p) else 'rv', a) for p, a in zip(ps, args[1:])]
+            ca = self.operands(items)
+            return self.finish_call('%s(%s)' % (L.fn_dispatcher(ft[1]), ', '.join(ca)), ret_t, returns_ref, True, want_value)
         if name == 'distance' and len(args) == 2 and L.deref_t(args[0]['type'])[0] == 'ptr':
             a, b = self.operands([('rv', args[0]), ('rv', args[1])])
             return '(%s - %s)' % (b, a), False
@@ -1109,6 +1297,14 @@ class FnLower:
             self.unsupported('lvalue reference to ' + str(rd.get('kind')))
         if k == 'MemberExpr':
             fld = self.idx.by_id.get(e['referencedMemberDecl'])
+            if fld is None and e.get('name') in ('first', 'second'):
+                bt = L.deref_t(e['inner'][0]['type'])
+                if e.get('isArrow') and bt[0] == 'ptr': bt = L.deref_t(bt[1])
+                if bt[0] == 'pair':
+                    b = self.rv(e['inner'][0]) if e.get('isArrow') else self.addr(e['inner'][0])
+                    s = '(%s)->%s' % (b, e['name'])
+                    if L.tparse(bt[1][0 if e['name'] == 'first' else 1])[0] == 'ref': s = '(*%s)' % s
+                    return s
             if fld is None or fld['kind'] != 'FieldDecl':
                 self.unsupported('member ' + str(fld.get('kind') if fld else e.get('name')))
             base = e['inner'][0]
